@@ -42,6 +42,8 @@ Names == [zbody |-> N("zbody", "Zbody", "zbody"), answer |-> N("answer", "Answer
                      baseCount |-> N("baseCount", "BaseCount", "base_count"),
                      baseCode |-> N("baseCode", "BaseCode", "base_code"),
                      farCode |-> N("farCode", "FarCode", "far_code"),
+                     FarThing |-> N("FarThing", "FarThing", "far_thing"),
+                     audit |-> N("audit", "Audit", "audit"),
                      farLevel |-> N("farLevel", "FarLevel", "far_level"),
                      midItem |-> N("midItem", "MidItem", "mid_item"),
                      leafItem |-> N("leafItem", "LeafItem", "leaf_item"),
@@ -132,6 +134,7 @@ Names == [zbody |-> N("zbody", "Zbody", "zbody"), answer |-> N("answer", "Answer
 NameRec(id) == IF id \in DOMAIN Names THEN Names[id] ELSE N(id, id, id)
 
 Lit(l, t) == [lit |-> l, text |-> t]
+SLit(t) == [lit |-> "\"" \o t \o "\".to_string()", text |-> t]
 TokTab == [String |-> [lo |-> Lit("String::new()", ""), hi |-> Lit("\"zz top\".to_string()", "zz top"), esc |-> Lit("\"a<b&c>\\\"d'e\".to_string()", "a<b&c>\"d'e")],
            i8 |-> [lo |-> Lit("i8::MIN", "-128"), hi |-> Lit("i8::MAX", "127"), esc |-> Lit("-1i8", "-1")],
            i16 |-> [lo |-> Lit("i16::MIN", "-32768"), hi |-> Lit("i16::MAX", "32767"), esc |-> Lit("-1i16", "-1")],
@@ -143,7 +146,20 @@ TokTab == [String |-> [lo |-> Lit("String::new()", ""), hi |-> Lit("\"zz top\".t
            u64 |-> [lo |-> Lit("0u64", "0"), hi |-> Lit("u64::MAX", "18446744073709551615"), esc |-> Lit("1u64", "1")],
            f32 |-> [lo |-> Lit("-1.5f32", "-1.5"), hi |-> Lit("1024.0f32", "1024"), esc |-> Lit("0.25f32", "0.25")],
            f64 |-> [lo |-> Lit("-1.5f64", "-1.5"), hi |-> Lit("1.0e10f64", "10000000000"), esc |-> Lit("0.25f64", "0.25")],
-           bool |-> [lo |-> Lit("false", "false"), hi |-> Lit("true", "true"), esc |-> Lit("true", "true")]]
+           bool |-> [lo |-> Lit("false", "false"), hi |-> Lit("true", "true"), esc |-> Lit("true", "true")],
+           \* rows of XSD types whose lexical space is narrower than their carrier's: instance documents stay schema-valid
+           date |-> [lo |-> SLit("0001-01-01"), hi |-> SLit("2024-02-29"), esc |-> SLit("1999-12-31Z")],
+           dateTime |-> [lo |-> SLit("0001-01-01T00:00:00"), hi |-> SLit("2024-02-29T23:59:59.999Z"), esc |-> SLit("1999-12-31T12:00:00+02:00")],
+           time |-> [lo |-> SLit("00:00:00"), hi |-> SLit("23:59:59.5"), esc |-> SLit("12:30:00Z")],
+           duration |-> [lo |-> SLit("PT0S"), hi |-> SLit("P1Y2M3DT4H5M6S"), esc |-> SLit("-P1D")],
+           anyURI |-> [lo |-> SLit(""), hi |-> SLit("urn:zv:test"), esc |-> SLit("http://zv.test/a?b=c&d=e#f")],
+           language |-> [lo |-> SLit("en"), hi |-> SLit("en-GB"), esc |-> SLit("x-klingon")],
+           base64Binary |-> [lo |-> SLit(""), hi |-> SLit("enYgdGVzdA=="), esc |-> SLit("QQ==")],
+           hexBinary |-> [lo |-> SLit(""), hi |-> SLit("0FB7"), esc |-> SLit("00ff")],
+           nonNegativeInteger |-> [lo |-> Lit("0i32", "0"), hi |-> Lit("i32::MAX", "2147483647"), esc |-> Lit("1i32", "1")],
+           positiveInteger |-> [lo |-> Lit("1i32", "1"), hi |-> Lit("i32::MAX", "2147483647"), esc |-> Lit("2i32", "2")],
+           nonPositiveInteger |-> [lo |-> Lit("i32::MIN", "-2147483648"), hi |-> Lit("0i32", "0"), esc |-> Lit("-1i32", "-1")],
+           negativeInteger |-> [lo |-> Lit("i32::MIN", "-2147483648"), hi |-> Lit("-1i32", "-1"), esc |-> Lit("-2i32", "-2")]]
 
 B(n) == [k |-> "builtin", n |-> n]
 T(p, n) == [k |-> "named", p |-> p, n |-> n]
@@ -210,6 +226,37 @@ TypeCases ==
                        Cx("FarType", None, << El("farValue", B("string"), 1, "1") >>, <<>>),
                        Simple("CodeType", B("string"), << <<"maxLen", 8>> >>),
                        ElemI("GlobalThing", << El("thingValue", B("int"), 1, "1") >>) >>) >>,
+   \* one type name in two namespaces; the near file declares its namespace as the default one and refers to ITS type
+   \* without a prefix, to the imported one with a prefix
+   homonym_default |-> << Xsd("main.xsd", "Unear", << <<"", "Unear">>, <<"o", "Ufar">> >>,
+                    << Imp("Ufar", "base.xsd"),
+                       Cx("LeafType", T("", "BaseType"), << El("leafItem", B("string"), 1, "1") >>, <<>>),
+                       Cx("MidType", T("o", "BaseType"), << El("midItem", B("long"), 0, "unb") >>, <<>>),
+                       Cx("BaseType", None, << El("otherValue", B("string"), 1, "1") >>, << At("leafKey", B("string"), "opt") >>) >>),
+                      Xsd("base.xsd", "Ufar", << <<"o", "Ufar">> >>,
+                    << Cx("BaseType", None, << El("baseItem", B("string"), 1, "1"), El("baseCount", B("int"), 0, "1") >>, << At("baseKey", B("string"), "req") >>) >>) >>,
+   \* members of TWO other namespaces in one struct: inherited from a base of Ufar, referred to in Uthird
+   two_foreign |-> << Xsd("main.xsd", "Unear", << <<"t", "Unear">>, <<"o", "Ufar">>, <<"m", "Uthird">> >>,
+                    << Imp("Ufar", "base.xsd"), Imp("Uthird", "third.xsd"),
+                       Cx("LeafType", T("o", "BaseType"), << El("leafItem", B("string"), 1, "1"), Ref("m", "GlobalThing", 0, "1") >>, <<>>),
+                       Cx("FocusType", None, << Ref("m", "GlobalThing", 1, "1"), Ref("o", "FarThing", 0, "unb"), El("tailMember", B("boolean"), 1, "1") >>, <<>>) >>),
+                      Xsd("base.xsd", "Ufar", << <<"o", "Ufar">> >>,
+                    << Cx("BaseType", None, << El("baseItem", B("string"), 1, "1"), El("baseCount", B("int"), 0, "1") >>, <<>>),
+                       ElemI("FarThing", << El("farValue", B("string"), 1, "1") >>) >>),
+                      Xsd("third.xsd", "Uthird", << <<"m", "Uthird">> >>,
+                    << ElemI("GlobalThing", << El("thingValue", B("int"), 1, "1") >>) >>) >>,
+   \* a file shared at two depths: main imports deep.xsd itself and, through mid.xsd and low.xsd, a file that refers to it
+   deep_shared |-> << Xsd("main.xsd", "Unear", << <<"t", "Unear">>, <<"d", "Ufar">>, <<"b", "Uv1">> >>,
+                    << Imp("Ufar", "deep.xsd"), Imp("Uv1", "mid.xsd"),
+                       Cx("FocusType", None, << El("subjectMember", T("b", "OtherType"), 1, "1"), Ref("d", "GlobalThing", 0, "1") >>, <<>>) >>),
+                      Xsd("mid.xsd", "Uv1", << <<"b", "Uv1">>, <<"c", "Uv2">> >>,
+                    << Imp("Uv2", "low.xsd"),
+                       Cx("OtherType", None, << El("otherValue", T("c", "FarType"), 1, "1") >>, <<>>) >>),
+                      Xsd("low.xsd", "Uv2", << <<"c", "Uv2">>, <<"d", "Ufar">> >>,
+                    << Imp("Ufar", "deep.xsd"),
+                       Cx("FarType", None, << El("farValue", B("string"), 1, "1"), Ref("d", "GlobalThing", 0, "1") >>, <<>>) >>),
+                      Xsd("deep.xsd", "Ufar", << <<"d", "Ufar">> >>,
+                    << ElemI("GlobalThing", << El("thingValue", B("int"), 1, "1") >>) >>) >>,
    simple_restricted |-> << Xsd("main.xsd", "Unear", NearX,
                     << Simple("LevelType", B("int"), << <<"minInc", 1>>, <<"maxInc", 9>> >>),
                        Simple("NarrowLevel", T("t", "LevelType"), << <<"maxInc", 5>> >>),
@@ -240,7 +287,7 @@ TypeCases ==
                     << Cx("kw_self", None, << El("kw_type", B("string"), 1, "1"), El("kw_match", B("int"), 0, "1"), El("kw_async", B("string"), 0, "unb"),
                                               El("kw_crate", B("boolean"), 1, "1") >>,
                           << At("kw_self", B("string"), "opt") >>) >>) >>]
-TypeLabels == IF Tier = "quick" THEN {"builtins_req", "builtins_vec", "positions", "extension_near", "extension_far", "extension_far_user", "simple_restricted", "keywords", "three_ns", "sibling_collide"}
+TypeLabels == IF Tier = "quick" THEN {"builtins_req", "builtins_vec", "positions", "extension_near", "extension_far", "extension_far_user", "two_foreign", "deep_shared", "homonym_default", "simple_restricted", "keywords", "three_ns", "sibling_collide"}
               ELSE DOMAIN TypeCases
 
 \* ---- WSDL shapes
@@ -268,9 +315,10 @@ WsdlCases ==
    headers_first |-> << Wsdl(ReqResp \o Headers, <<>>,
                   Common(<< [n |-> "GetItem", action |-> "act",
                              input |-> [msg |-> "request", hfirst |-> 1, headers |-> << Hdr("request", "auth"), Hdr("request", "trace") >>],
-                             output |-> [msg |-> "response", hfirst |-> 1, headers |-> << Hdr("response", "sess") >>]] >>,
+                             output |-> [msg |-> "response", hfirst |-> 1, headers |-> << Hdr("response", "audit") >>]] >>,
                          << Msg("request", << Part("auth", "tns", "AuthHeader"), Part("bodyPart", "tns", "GetItem"), Part("trace", "tns", "TraceHeader") >>),
-                            Msg("response", << Part("sess", "tns", "SessionHeader"), Part("bodyPart", "tns", "GetItemResponse") >>) >>)) >>,
+                            \* the output's header part comes first in the message AND first in the alphabet
+                            Msg("response", << Part("audit", "tns", "SessionHeader"), Part("parameters", "tns", "GetItemResponse") >>) >>)) >>,
    oneway |-> << Wsdl(<< ElemI("Ping", << El("pingNote", B("string"), 0, "1") >>) >>, <<>>,
                   Common(<< [n |-> "Ping", input |-> [msg |-> "request", parts |-> "parameters", headers |-> <<>>]] >>,
                          << Msg("request", << Part("parameters", "tns", "Ping") >>) >>)) >>,
@@ -342,7 +390,7 @@ StructJ(S, s) == [ns |-> s.ns, xml |-> NameRec(s.n).xml, pascal |-> NameRec(s.n)
                   invalid |-> IF s.k = "simple" THEN InvalidText(EffFacets(S, s, 4)) ELSE "?",
                   invalids |-> IF s.k = "simple" THEN SetToSeq(InvalidTexts(EffFacets(S, s, 4))) ELSE <<>>,
                   fields |-> IF s.k = "simple" THEN <<>> ELSE LET fs == ExpFields(S, FileNamed(S, s.f), s.it, BodyOf(s)) IN [i \in 1..Len(fs) |-> FieldJ(fs[i])],
-                  base |-> IF s.k = "simple" THEN TargetJ(TargetOf(S, FileNamed(S, s.f), s.it, s.it.base)) ELSE [k |-> "none"]]
+                  base |-> IF s.k = "simple" THEN TargetJ(TargetOf(S, FileNamed(S, s.f), s.it, s.it.base)) @@ [xsd |-> XsdOf(s.it.base)] ELSE [k |-> "none"]]
 Expect(S) == LET ss == SetToSeq(StructComps(S)) IN [i \in 1..Len(ss) |-> StructJ(S, ss[i])]
 
 \* operation shapes as the WSDL declares them (body part: named by parts=, else the part no header names)
